@@ -67,9 +67,9 @@ def run(tier):
                 if "panic" in bad:
                     v.violation("default policy panicked: %s" % bad["panic"], [bad])
                 else:
-                    v.violation("plan violates the load-balancing property: ring=%s attr=%s strategy=%s token_pos=%s enabled=%s alive=%s pref=%s inherit=%s failover=%s token_aware=%s lwt=%s -> plan=%s variants=%s" % (
+                    v.violation("plan violates the load-balancing property: ring=%s attr=%s strategy=%s token_pos=%s enabled=%s alive=%s pref=%s inherit=%s failover=%s token_aware=%s lwt=%s serial=%s -> plan=%s variants=%s" % (
                         bad["ring"], bad["attr"], json.dumps(bad["strat"]), bad["q"], bad["en"], bad["al"], bad["pref"], bad["inherit"],
-                        bad["failover"], bad["tokenaware"], bad["lwt"], bad["plan"], bad["variants"]), [bad])
+                        bad["failover"], bad["tokenaware"], bad["lwt"], bad.get("serial"), bad["plan"], bad["variants"]), [bad])
             elif sample is None and rows:
                 sample = next((x for x in rows if x.get("lwt") == 1 and len(x.get("plan", [])) > 2), rows[0])
     v.add(evaluations=nplans, distinct_nontrivial=len(feats),
